@@ -226,6 +226,8 @@ struct CodeRef {
 struct TraceEnt { uint64_t h; std::string brief; };
 
 struct Sess;
+// set by run_history: lets a callback of session `id` make another session take its next step (nested call)
+static std::function<void(int)>* g_reenter_hook = nullptr;
 static void* hist_src_cb(void* ctx, uint32_t size, uint32_t esi);
 static void* hist_rep_cb(void* ctx, uint32_t size, uint32_t esi);
 
@@ -244,11 +246,15 @@ struct Sess {
   bool src_cb_set = false, rep_cb_set = false;
   bool is_dec_role() const { return sc.role & ROLE_DEC; }
   bool is_enc_role() const { return sc.role & ROLE_ENC; }
-  int dir = 0;  // 0 undecided, 1 encoding, 2 decoding
+  int dir = 0;  // bit 0: has encoded, bit 1: has decoded
+  // one session driven in both directions: only for the Reed-Solomon codecs with the combined role (encoding
+  // uses the generator matrix, decoding the received-symbol table; the LDPC decoder consumes the matrix the
+  // encoder needs, so mixing is meaningless there)
+  bool mixed_ok() const { return (sc.cfg.codec == CODEC_RS8 || sc.cfg.codec == CODEC_RSM) && sc.role == ROLE_BOTH; }
 
   // application buffers
   struct Buf { uint8_t* base = nullptr; uint32_t off = 0; uint8_t* p() const { return base ? base + off : nullptr; } };
-  std::vector<Buf> buf[2];
+  std::vector<Buf> buf[3];   // 0: symbols as received / encoder sources, 1: duplicates (equal content), 2: encoder output buffers
   void** avail_tab = nullptr;  // exact n entries
   void** src_tab = nullptr;    // exact k entries
   void** enc_tab = nullptr;    // exact n entries
@@ -279,7 +285,7 @@ struct Sess {
   Sess(const Sess&) = delete;
   ~Sess() {
     if (created && !released) { do_release(true); }
-    for (int w = 0; w < 2; w++) for (auto& b : buf[w]) free(b.base);
+    for (int w = 0; w < 3; w++) for (auto& b : buf[w]) free(b.base);
     free(avail_tab); free(src_tab);
     if (enc_tab) {
       for (uint32_t i = k; i < n; i++) if (enc_tab[i] && enc_lib_alloc[i]) free(enc_tab[i]);
@@ -324,15 +330,15 @@ struct Sess {
   void check_app_memory(const char* where, bool force = false) {
     if (!code) return;
     if (!force && (uint64_t)n * L > (1u << 15) && (cx.api_calls & 15)) return;
-    for (int w = 0; w < 2; w++)
+    for (int w = 0; w < 3; w++)
       for (uint32_t e = 0; e < buf[w].size(); e++) {
         Buf& b = buf[w][e];
         if (!b.base) continue;
         for (uint32_t i = 0; i < b.off; i++)
           if (b.base[i] != 0xC5) { cx.fail(O_MEM, "canary_before_buffer", std::string(where) + ": byte before application buffer esi=" + std::to_string(e) + " modified"); return; }
-        if (dir == 1 && e >= k) continue;  // encoder output buffers are written by design
+        if (w == 2) continue;  // encoder output buffers are written by design
         if (L && memcmp(b.p(), code->sym(e).data(), L) != 0) {
-          cx.fail(O_MEM, dir == 1 ? "encoder_source_modified" : "received_symbol_modified",
+          cx.fail(O_MEM, (dir & 1) && e < k ? "encoder_source_modified" : "received_symbol_modified",
                   std::string(where) + ": application buffer esi=" + std::to_string(e) + " content changed");
           return;
         }
@@ -398,7 +404,6 @@ struct Sess {
     bool ok_m = (m == 4 || m == 8);
     if (ok_m && s != ST_OK) cx.fail(O_PARAM, "set_field_size_refused", "OF_RS_CTRL_SET_FIELD_SIZE with m=" + std::to_string(m) + " returned " + std::to_string(s));
     if (!ok_m && s == ST_OK) cx.fail(O_PARAM, "set_field_size_accepted_bad_m", "OF_RS_CTRL_SET_FIELD_SIZE with m=" + std::to_string(m) + " returned OK");
-    cx.features |= F_BADCALL * 0;
     tr("setctrl " + std::to_string(m), (uint64_t)s);
   }
 
@@ -477,17 +482,17 @@ struct Sess {
     for (uint32_t i = 0; i < k; i++) { enc_tab[i] = get_buf(i, 0).p(); enc_shadow[i] = enc_tab[i]; }
   }
   void step_build(const Step& st) {
-    if (!cfg_ok || released || !is_enc_role() || dir == 2) { cx.skipped_steps++; return; }
+    if (!cfg_ok || released || !is_enc_role() || ((dir & 2) && !mixed_ok())) { cx.skipped_steps++; return; }
     uint32_t esi = st.esi;
     if (esi < k || esi >= n) { cx.skipped_steps++; return; }
     if (sc.cfg.codec == CODEC_LDPC && esi > k && !(enc_built.size() && enc_built[esi - 1])) { cx.skipped_steps++; return; }
-    dir = 1;
+    dir |= 1;
     enc_prepare();
     bool nullslot = false;
     if (!enc_tab[esi]) {
       if (st.flag & 1) { nullslot = true; cx.features |= F_ENC_NULLSLOT; }
       else {
-        Buf& b = buf[0].size() > esi && buf[0][esi].base ? buf[0][esi] : get_buf(esi, 0);
+        Buf& b = get_buf(esi, 2);
         if (L) memset(b.p(), 0xAA, L);
         enc_tab[esi] = b.p(); enc_shadow[esi] = b.p();
       }
@@ -523,8 +528,8 @@ struct Sess {
 
   // decoder ------------------------------------------------------------------
   bool dec_ready() {
-    if (!cfg_ok || released || !is_dec_role() || dir == 1) return false;
-    dir = 2;
+    if (!cfg_ok || released || !is_dec_role() || ((dir & 1) && !mixed_ok())) return false;
+    dir |= 2;
     if (!src_tab) src_tab = (void**)malloc(sizeof(void*) * k);
     return true;
   }
@@ -628,7 +633,25 @@ struct Sess {
   }
 
   // query + all state oracles
+  // OF_CTRL_GET_MAX_K / MAX_N: the advertised limits (C09); harmless to ask at any time after configuration
+  void query_limits() {
+    if (!cfg_ok || released) return;
+    uint32_t mk = 0, mn = 0;
+    int s1 = call([&] { return sh_get_ctrl_u32(ses, 1, &mk); });
+    int s2 = call([&] { return sh_get_ctrl_u32(ses, 2, &mn); });
+    uint32_t wk = 0, wn = 0;
+    switch (sc.cfg.codec) {
+      case CODEC_RS8: wk = wn = 255; break;
+      case CODEC_RSM: wk = wn = (1u << sc.cfg.m) - 1; break;
+      case CODEC_LDPC: wk = wn = 50000; break;
+      default: return;
+    }
+    if (s1 != ST_OK || s2 != ST_OK) cx.fail(O_PARAM, "limits_query_failed", "OF_CTRL_GET_MAX_K/N returned " + std::to_string(s1) + "/" + std::to_string(s2) + " on a configured session");
+    else if (mk != wk || mn != wn) cx.fail(O_PARAM, "limits_differ_from_advertised", "MAX_K/MAX_N = " + std::to_string(mk) + "/" + std::to_string(mn) + ", the documented limits are " + std::to_string(wk) + "/" + std::to_string(wn));
+    tr("limits", ((uint64_t)mk << 32) | mn);
+  }
   void step_query(uint32_t flag, bool final_q = false) {
+    if (flag & 4) { query_limits(); if (!(flag & 3)) return; }
     if (!dec_ready()) { cx.skipped_steps++; return; }
     int c = -1;
     if (flag & 1) {
@@ -737,14 +760,14 @@ struct Sess {
     void* dummytab[1] = {nullptr};
     switch (st.esi % BAD_KINDS) {
       case BAD_NEW_ESI: {
-        if (!cfg_ok || !is_dec_role() || dir == 1) { cx.skipped_steps++; return; }
+        if (!cfg_ok || !is_dec_role() || ((dir & 1) && !mixed_ok())) { cx.skipped_steps++; return; }
         uint32_t e = st.flag < n ? n + st.flag : st.flag;  // always >= n
         Buf& b = get_buf(0, 0);
         s = call([&] { return sh_decode_new(ses, b.p(), e); }); what = "decode_with_new_symbol(esi=" + std::to_string(e) + ")";
       } break;
       case BAD_BUILD_ESI: {
-        if (!cfg_ok || !is_enc_role() || dir == 2) { cx.skipped_steps++; return; }
-        dir = 1; enc_prepare();
+        if (!cfg_ok || !is_enc_role() || ((dir & 2) && !mixed_ok())) { cx.skipped_steps++; return; }
+        dir |= 1; enc_prepare();
         uint32_t e = (st.flag & 1) ? (st.flag >> 1) % k : n + (st.flag >> 1) % 3 + ((st.flag >> 3) & 1) * 0x7fffff00u;
         s = call([&] { return sh_build(ses, enc_tab, e); }); what = "build_repair_symbol(esi=" + std::to_string(e) + ")";
       } break;
@@ -784,7 +807,7 @@ struct Sess {
         } else { cx.skipped_steps++; return; }
       } break;
       case BAD_NEW_NULLBUF: {
-        if (!cfg_ok || !is_dec_role() || dir == 1) { cx.skipped_steps++; return; }
+        if (!cfg_ok || !is_dec_role() || ((dir & 1) && !mixed_ok())) { cx.skipped_steps++; return; }
         uint32_t e = st.flag % n;
         s = call([&] { return sh_decode_new(ses, nullptr, e); }); what = "decode_with_new_symbol(NULL buffer)";
       } break;
@@ -813,7 +836,7 @@ struct Sess {
   void do_release(bool from_dtor = false) {
     if (!created || released) return;
     std::set<void*> app_owned;
-    if (cfg_ok && dir == 2 && !from_dtor && !cx.stop) {
+    if (cfg_ok && (dir & 2) && !from_dtor && !cx.stop) {
       step_query(3, true);  // as eperftool does: fetch the table before releasing
       // the application owns every decoded source symbol
       int s = sh_get_src_tab(ses, src_tab);
@@ -827,7 +850,8 @@ struct Sess {
       if (!ever_complete && ndistinct > 0) cx.features |= F_MIDDECODE_REL | F_EARLY_REL;
     }
     if (!cfg_ok) cx.features |= F_UNCONF_REL;
-    if (dir == 1) { for (uint32_t i = k; i < n; i++) if (!enc_built[i]) { cx.features |= F_EARLY_REL; break; } }
+    if (dir & 1) { for (uint32_t i = k; i < n; i++) if (!enc_built[i]) { cx.features |= F_EARLY_REL; break; } }
+    if (dir == 3) cx.counters["mixed_direction_sessions"]++;
     if (!from_dtor) check_app_memory("pre-release", true);
     int s = call([&] { return sh_release(ses); });
     released = true;
@@ -863,6 +887,14 @@ static void* hist_src_cb(void* ctx, uint32_t size, uint32_t esi) {
   if (give_null) s->cx.features |= F_CB_NULL;
   else { ret = malloc(size ? size : 1); memset(ret, 0xEE, size ? size : 1); s->cb_bufs.push_back(ret); }
   s->cblog.push_back(Sess::CbRec{s->cur_call, esi, size, ret, false});
+  if (g_reenter_hook) {
+    uint64_t keep = s->cur_call;
+    (*g_reenter_hook)(s->id);      // another session's next step, from inside this session's callback
+    s->cur_call = keep;
+#ifndef VERIF_NOSAN
+    at::at_tag = s->id;            // allocations of the interrupted call belong to this session again
+#endif
+  }
   sh_in_library = prev;
   return ret;
 }
@@ -898,6 +930,22 @@ inline RunResult run_history(const History& h, Ctx& cx, const std::map<int, std:
     if (pos[i] < s.sc.steps.size()) { s.do_step(s.sc.steps[pos[i]++]); return; }
     s.do_release(); done[i] = 1; remaining--;
   };
+  uint32_t reenter_left = h.reenter;
+  std::vector<char> busy(ns, 0);
+  std::function<void(int)> hook = [&](int from_id) {
+    if (!reenter_left || cx.stop) return;
+    size_t from = (size_t)from_id - 1;
+    for (size_t d = 1; d < ns; d++) {
+      size_t j = (from + d) % ns;
+      if (done[j] || busy[j]) continue;
+      reenter_left--; cx.counters["nested_steps_from_callback"]++;
+      busy[from] = 1; busy[j] = 1;
+      advance(j);
+      busy[j] = 0;
+      return;
+    }
+  };
+  if (h.reenter && ns > 1) g_reenter_hook = &hook;
   size_t alive_other_steps = 0;
   for (uint32_t idx : h.inter) {
     if (cx.stop || remaining == 0) break;
@@ -909,6 +957,7 @@ inline RunResult run_history(const History& h, Ctx& cx, const std::map<int, std:
   }
   if (alive_other_steps >= 2) cx.features |= F_MULTI;
   while (!cx.stop && remaining) for (size_t i = 0; i < ns && !cx.stop; i++) advance(i);
+  g_reenter_hook = nullptr;
   for (size_t i = 0; i < ns; i++) { rr.traces.push_back(ss[i]->trace); rr.last_null.push_back(ss[i]->last_null); rr.cfg_ok.push_back(ss[i]->cfg_ok); }
   ss.clear();  // destructors release whatever is left
 #ifndef VERIF_NOSAN
